@@ -302,7 +302,9 @@ theorem bundleLoop_ok (mem : Bytes) (h31 : mem.length < 2147483648) : ∀ (f pos
       simp only [Res.ok_bind]
       by_cases hfit : (rdz mem pos).toNat > mem.length - pos
       · exact ⟨none, by simp [hfit], by simp⟩
-      · simp only [hfit, if_false]
+      · -- the guard of fix C06-bundle-length-wrap cannot fire below 2^31
+        have hnw : ¬ ((rdz mem pos).toNat ≠ 0 ∧ pos + 4 + (rdz mem pos).toNat > 4294967295) := by omega
+        simp only [hfit, hnw, or_self, if_false]
         by_cases ha : (rdz mem pos).toNat ≠ 0
         · rw [if_pos ha]
           rw [u32_id (by omega : 4 + (rdz mem pos).toNat < 4294967296), u32_id (by omega)]
